@@ -104,12 +104,14 @@ def generate(seed: int, tier: str, phase: str) -> Dict[str, Any]:
         ops.append({"op": "unit_scale", "i": i})
     for i in range(nmods):
         ops.append({"op": "call", "i": i, "k": r.randrange(3), "gseed": r.randrange(4)})
-    extra = ["call", "call", "call", "reset", "bad_call", "unit_scale"]
+    extra = ["call", "call", "call", "reset", "bad_call", "unit_scale", "fleet"]
     for _ in range(r.choice([0, 1, 2, 3, 4])):
         k = r.choice(extra)
         op: Dict[str, Any] = {"op": k, "i": r.randrange(8)}
         if k == "call":
             op.update(k=r.randrange(3), gseed=r.randrange(4))
+        if k == "fleet":
+            op.update(n=r.choice([9, 11]))
         ops.append(op)
     if phase == "interleaved":
         # seeded schedule: shuffle, keeping each module's unit_scale before its calls
@@ -201,6 +203,21 @@ def execute(plan: Dict[str, Any]) -> Dict[str, Any]:
                         raise Violation("reinitialisation", "original_modified", f"{d} {where}")
                     _check_init(m, w["orig"], where)
                     w["mods"].append(m)
+                elif k == "fleet":
+                    # many unit-scaled copies of one module class in one process, each called once
+                    for jj in range(op["n"]):
+                        fm_ = tw.apply_transform_by_name(w["orig"], {"T": "unit_scale", "replace": w["replace"]})
+                        try:
+                            got = tw.run(fm_, fm_, tw.clone_inputs(w["inputs"][jj % 3]), 0)
+                        except Exception as e:
+                            raise Violation("runs_without_error", _exc_culprit(e, w["sig"]),
+                                            f"{type(e).__name__}: {str(e)[:300]} {where} fleet member {jj}")
+                        want = tw.run(lambda *xs: w["ref"].run(fm_, xs), fm_, tw.clone_inputs(w["inputs"][jj % 3]), 0)
+                        d = tw.diff(got, want)
+                        if d:
+                            raise Violation("equals_recipe", "value_mismatch",
+                                            f"{d} {where} fleet member {jj} program {w['sig']}")
+                        probe("fleet_members")
                 elif k in ("call", "bad_call"):
                     if not w["mods"]:
                         continue
